@@ -947,9 +947,14 @@ func (c *Ctx) stageInterleave(refs map[refKey]*Ref, keys []refKey) {
 		maxPairs = 600
 	}
 	nSys := 0
-	for pi := 0; pi < maxPairs && len(writers) > 0; pi++ {
+	for pi := 0; pi < maxPairs+len(writers) && len(writers) > 0; pi++ {
 		a := writers[rng.Intn(len(writers))]
 		b := writers[rng.Intn(len(writers))]
+		if pi < len(writers) {
+			// first, every writer against itself: two renders that write the same process-wide
+			// state at the same places
+			a, b = writers[pi], writers[pi]
+		}
 		nw := refs[a].Res.GWTotal
 		if nw > 6 {
 			nw = 6
